@@ -35,6 +35,17 @@ impl TagPat {
         TagPat::TwoOnLast,
     ];
     pub const SMALL: [TagPat; 4] = [TagPat::None, TagPat::First, TagPat::Last, TagPat::TwoOnFirst];
+    /// Every pattern, for reading replay files.
+    pub const PARSE: [TagPat; 8] = [
+        TagPat::None,
+        TagPat::First,
+        TagPat::Last,
+        TagPat::FirstLast,
+        TagPat::TwoOnFirst,
+        TagPat::Middle,
+        TagPat::TwoOnLast,
+        TagPat::Dense,
+    ];
 
     /// Tags (window relative) for a commit of `n` samples. Order matters.
     fn tags(self, n: usize) -> Vec<Tag> {
@@ -108,7 +119,7 @@ impl Op {
             "W" => Op::W {
                 k: v["write"].as_u64().unwrap() as usize,
                 n: v["commit"].as_u64().unwrap() as usize,
-                pat: *TagPat::ALL
+                pat: *TagPat::PARSE
                     .iter()
                     .find(|p| format!("{p:?}") == v["tags"].as_str().unwrap())
                     .unwrap(),
@@ -119,7 +130,7 @@ impl Op {
             "CW" => Op::CW {
                 k: v["write"].as_u64().unwrap() as usize,
                 n: v["commit"].as_u64().unwrap() as usize,
-                pat: *TagPat::ALL
+                pat: *TagPat::PARSE
                     .iter()
                     .find(|p| format!("{p:?}") == v["tags"].as_str().unwrap())
                     .unwrap(),
@@ -249,7 +260,7 @@ impl<T: Elem> Sys<T> {
             }
             let ov = verif::take_overlaps();
             if !ov.is_empty() {
-                return fail("window-overlap", format!("{:?}", ov[0]));
+                return fail("window-overlap", format!("read window {:?} and write window {:?} of one stream (capacity {}) are live at once and overlap", (ov[0].read.start, ov[0].read.end), (ov[0].write.start, ov[0].write.end), ov[0].capacity));
             }
             return Ok(());
         }
@@ -341,7 +352,7 @@ impl<T: Elem> Sys<T> {
         drop(wb);
         let ov = verif::take_overlaps();
         if !ov.is_empty() {
-            return fail("window-overlap", format!("{:?}", ov[0]));
+            return fail("window-overlap", format!("read window {:?} and write window {:?} of one stream (capacity {}) are live at once and overlap", (ov[0].read.start, ov[0].read.end), (ov[0].write.start, ov[0].write.end), ov[0].capacity));
         }
         Ok(())
     }
